@@ -74,7 +74,8 @@ def build(ctx):
     ctx.assumptions = ['line numbers < 2^32', 'HashMap<FileName, Vec<Range>> is observed through values_mut/get only (entry-list summary)',
                        'slice::sort = a sorting network over the derived Ord::cmp MIR of Range']
     if os.environ.get('C17_DEV') == 'guard':
-        return guard_sites(ctx, eng)
+        guard_sites(ctx, eng)
+        return line_range_conversion(ctx, eng)
     rp = ctx.replayer()
     names = {m: eng.find(m, self_ty='Range', file=F) for m in ('is_empty', 'contains', 'intersects', 'adjacent_to', 'merge')}
     a, b = rng('a'), rng('b')
@@ -244,6 +245,7 @@ def build(ctx):
                                                                z3.ULT(lo(rs[0]), lo(rs[1])), z3.ULT(lo(rs[1]), lo(rs[2]))])
 
     guard_sites(ctx, eng)
+    line_range_conversion(ctx, eng)
     validate(ctx, eng, names, norm, cl, cr)
 
 
@@ -382,6 +384,74 @@ def guard_sites(ctx, eng):
     eng.lenient = False
     eng.unsupported_as_outcome = False
     eng.inline_only = None
+
+
+# ----------------------------------------------------------------------------- spans -> 1-based inclusive line ranges
+def line_range_conversion(ctx, eng):
+    """ParseSess::lookup_line_range (real MIR): SourceMap::lookup_line gives 0-based lines l_lo, l_hi (symbolic). For a span whose text
+    does not start with a newline (every item, statement, expression span) the range is exactly [l_lo + 1, l_hi + 1]; for a span that
+    starts with a newline both ends move by one more line (the code's documented adjustment: observed, only its shape is checked)."""
+    name = eng.find('lookup_line_range', self_ty='ParseSess', file='src/parse/session.rs', trait='LineRangeUtils')
+    eng.stubs = []
+    eng.lenient = True
+    eng.inline_only = [re.compile(r'lookup_line_range$')]
+    l_lo, l_hi = z3.BitVec('line0_lo', 64), z3.BitVec('line0_hi', 64)
+    swn = z3.Bool('span_starts_with_newline')
+    calls = {'n': 0}
+
+    def lookup_line(e, s_, a, c):
+        k = len([t for t in s_.trace if t[0] == 'lookup_line'])
+        s_.trace.append(('lookup_line', a[1]))
+        ln = l_lo if k == 0 else l_hi
+        return Enum('Result', 0, {0: Tup([Tup([Opaque('Arc<SourceFile>', 'sf'), BV(ln, 'usize')], 'SourceFileAndLine')])})
+    eng.stub(r'SourceMap::lookup_line$', lookup_line, 'SourceMap::lookup_line(pos) = Ok(SourceFileAndLine { sf, line }) with the 0-based line symbolic (first call: span.lo, second: span.hi)')
+    eng.stub(r'starts_with_newline$', lambda e, s_, a, c: swn, 'utils::starts_with_newline(snippet) = symbolic')
+    eng.stub(r'Span>::(lo|hi)$', lambda e, s_, a, c: Tup([Opaque('pos', c.func.rsplit('::', 1)[1])], 'BytePos'), 'Span::lo / Span::hi = named positions')
+    st = State()
+    st.assume(z3.And(z3.ULT(l_lo, LIM), z3.ULT(l_hi, LIM), z3.ULE(l_lo, l_hi)))
+    fn = eng.get_fn(name)
+    args = [eng.fresh_of_type(st, fn.params[0][1], 'psess'), Opaque('Span', 'span')]
+    outs = ctx.check_outcomes(eng.run(name, args, st), 'lookup_line_range')
+    lr = [n for n, _ in eng.src.struct_fields('LineRange', 'src/source_map.rs')]
+    nret = 0
+    for pi, o in enumerate(outs):
+        label = 'line-range/p%d' % pi
+        if o.kind != 'ret':
+            ctx.prop(label + '/no-panic', o.state.pc, z3.BoolVal(True), [l_lo, l_hi, swn], None, twin=False)
+            continue
+        nret += 1
+        order = [t[1] for t in o.state.trace if t[0] == 'lookup_line']
+        okorder = len(order) == 2 and isinstance(order[0], Tup) and order[0].items[0].ident == 'lo' and order[1].items[0].ident == 'hi'
+        ctx.prop(label + '/looks-up-span.lo-then-span.hi', o.state.pc, z3.BoolVal(not okorder), [], None, twin=False)
+        v = o.value
+        lo_v, hi_v = v.items[lr.index('lo')].e, v.items[lr.index('hi')].e
+        if eng.feasible(o.state, z3.Not(swn)):
+            ctx.prop(label + '/item-spans:1-based-inclusive-lines', o.state.pc + [z3.Not(swn)], z3.Or(lo_v != l_lo + 1, hi_v != l_hi + 1), [l_lo, l_hi, lo_v, hi_v], replay_line_range)
+        if eng.feasible(o.state, swn):
+            ctx.prop(label + '/spans-starting-with-a-newline:both-ends-one-line-later', o.state.pc + [swn], z3.Or(lo_v != l_lo + 2, hi_v != l_hi + 2), [l_lo, l_hi, lo_v, hi_v], replay_line_range)
+    if not nret:
+        raise Inconclusive('lookup_line_range has no returning path')
+    eng.stubs = []
+    eng.lenient = False
+    eng.inline_only = None
+
+
+def replay_line_range(model, r):
+    """one-line items at every line of a small file: selecting exactly line k formats exactly item k"""
+    bins = ensure_bins()
+    rf = os.path.join(bins, 'rustfmt')
+    n = 6
+    src = ''.join('fn   f%d( ) { }\n' % i for i in range(1, n + 1))
+    findings = []
+    for k in range(1, n + 1):
+        pr = subprocess.run([rf, '--emit', 'stdout', '--quiet', '--unstable-features', '--file-lines', '[{"file":"stdin","range":[%d,%d]}]' % (k, k)],
+                            input=src, capture_output=True, text=True, env=run_env(), timeout=60)
+        out = pr.stdout.split('\n')
+        want = ['fn f%d() {}' % i if i == k else 'fn   f%d( ) { }' % i for i in range(1, n + 1)] + ['']
+        if out != want:
+            changed = [i + 1 for i in range(min(len(out), n)) if out[i] != src.split('\n')[i]]
+            findings.append('selection [%d,%d]: lines changed %r' % (k, k, changed))
+    return {'reproduced': bool(findings), 'detail': findings[:4]}
 
 
 def short_callee(c):
